@@ -207,6 +207,8 @@ def _pure_expr(n):
         if k in ("call", "mcall", "opcall"):
             c = x.get("callee") or ""
             from ..cfg import NOTHROW_STD
+            if k == "mcall" and last(c) in ("size", "data", "empty", "begin", "end", "length") and not [a for a in x.get("args", []) if not a.get("def")]:
+                continue      # an accessor without arguments, of whatever class (BufferView::size())
             if not c.startswith("std::") or last(c) not in NOTHROW_STD or last(c) in _IMPURE_STD:
                 return False
         if k in ("ctor", "new", "delete", "lambda", "throw"):
@@ -246,10 +248,89 @@ class _Expander:
                 self._splice(raw, b, i, node, g, lam, stack + (f.name,))
         else:
             raise AnalysisBroken("%s: more than 40 helper calls to expand" % short(f.name))
+        for rounds in range(4):
+            bound = self._bind_locals(raw)
+            if not bound:
+                break
+            expanded += bound
         raw["_expanded"] = expanded + [x for g in set(expanded) for x in self.done.get(g, {}).get("_expanded", [])]
         if f.kind != "lambda":
             self.done[f.name] = raw
         return raw
+
+    def _bind_locals(self, raw):
+        """Locals that are only another name for something: (a) a reference local bound to an access path
+        (`std::vector<…> &pending = rx->data;`) is read as that path, (b) a const local of built-in type whose initialiser is an
+        effect-free expression over locals / parameters only (`const std::size_t incoming = data.size();`) is read as that
+        expression — in both cases only where nothing the expression names is written between the declaration and the use
+        (a reference cannot be re-bound; the variables on its path must still hold what they held).  Returns the names bound."""
+        tmp = Function(copy.deepcopy({k: v for k, v in raw.items() if k != "_expanded"}))
+        if not tmp.ok:
+            return []
+        cands = {}
+        for e in tmp.stmts():
+            if e.node.get("k") != "decl":
+                continue
+            for v in e.node["vars"]:
+                t, init = (v.get("t") or "").strip(), v.get("init")
+                if not isinstance(init, dict) or not isinstance(v.get("d"), int) or locks.LOCK_TYPES.match(t):
+                    continue
+                a = _arg_value(strip_wrappers(init))
+                if a is None:
+                    continue
+                vars_ = [x for x in walk(a) if x.get("k") == "var"]
+                if t.endswith("&") and not t.endswith("&&") and access_path(a) is not None and a.get("k") != "var":
+                    cands[v["d"]] = (e, a, vars_, v["n"])
+                elif t.startswith("const ") and not any(c in t for c in "<:&*") and _pure_expr(a) and vars_ and \
+                        not any(x.get("k") in ("member", "this", "gvar") for x in walk(a)):
+                    cands[v["d"]] = (e, a, vars_, v["n"])
+        table = {}
+        for d, (de, a, vars_, name) in cands.items():
+            uses = [tmp.elem_for(x) for x in tmp.nodes.values() if x.get("k") == "var" and x.get("d") == d]
+            touched = []
+            for y in vars_:
+                touched += [we for (we, _v) in _var_writes(tmp, y["d"]) if we is not de]
+                touched += [tmp.elem_for(x) for x in tmp.nodes.values() if x.get("k") == "var" and x.get("d") == y["d"] and "id" in x and
+                            access.classify(tmp, x) in ("write", "rw", "addr")]
+            ok = bool(uses) and all(u is not None for u in uses)
+            for u in uses:
+                for w in touched:
+                    if w is None or w is de:
+                        continue
+                    # the declaration, then the write, then the use (without the declaration being executed again in between)
+                    if (w is u or search(tmp, w, lambda x, u=u: x is u, stop=lambda x: x is de, eh=False) is not None) and \
+                            search(tmp, de, lambda x, w=w: x is w, stop=lambda x: x is de, eh=False) is not None:
+                        ok = False
+            if ok:
+                table[d] = (a["id"], name)
+        if not table:
+            return []
+        ids = {}
+        for t_ in _raw_trees(raw):
+            for y in _raw_walk(t_):
+                if isinstance(y.get("id"), int):
+                    ids[y["id"]] = y
+        mi = _raw_max(raw)[0]
+        ctr = [mi]
+
+        def fresh():
+            ctr[0] += 1
+            return ctr[0]
+
+        def fix(m):
+            if m.get("k") == "var" and m.get("d") in table:
+                src = ids.get(table[m["d"]][0])
+                if src is not None:
+                    return _clone(src, lambda old: fresh(), lambda z: z)
+            return m
+        for bb in raw["blocks"]:
+            for re_ in bb["elems"]:
+                if "root" in re_:
+                    re_["root"] = _clone(re_["root"], lambda old: old, fix)
+                    if re_["root"].get("id") != re_.get("e"):
+                        re_["root"] = dict(re_["root"], id=re_["e"])
+        _drop_dangling(raw)
+        return ["&" + name for (_i, name) in table.values()]
 
     def _next_site(self, raw, stack):
         ids = {}
@@ -465,14 +546,18 @@ class _Expander:
             ent["elems"] = decls + ent["elems"]
         node["inl"] = g.name
         raw["blocks"].extend(newblocks + [cont])
-        # elements of sub-expressions that were replaced (parameter uses) no longer exist in any tree
-        have = set()
-        for t in _raw_trees(raw):
-            for y in _raw_walk(t):
-                if isinstance(y.get("id"), int):
-                    have.add(y["id"])
-        for bb in raw["blocks"]:
-            bb["elems"] = [re_ for re_ in bb["elems"] if not isinstance(re_.get("e"), int) or re_["e"] in have or "root" in re_]
+        _drop_dangling(raw)
+
+
+def _drop_dangling(raw):
+    """elements of sub-expressions that were replaced (parameter / alias uses) no longer exist in any tree"""
+    have = set()
+    for t in _raw_trees(raw):
+        for y in _raw_walk(t):
+            if isinstance(y.get("id"), int):
+                have.add(y["id"])
+    for bb in raw["blocks"]:
+        bb["elems"] = [re_ for re_ in bb["elems"] if not isinstance(re_.get("e"), int) or re_["e"] in have or "root" in re_]
 
 
 def expanded(ctx, f):
@@ -1328,8 +1413,13 @@ def r5(ctx, r):
         r.expect(dst.get("k") == "var" and all(any(x.get("k") == "var" and x.get("d") == dst.get("d") for x in walk(e.node)) for (e, _) in invs), f, invs[0][0], "delivers other bytes",
                  "the callback is not given the bytes that were moved out of the buffer", okdesc="callback receives the moved-out bytes")
     # (d) FlushGuard is created in the critical section that fetched the buffer
-    mk = [e for e in f.stmts() if e.node.get("k") == "call" and e.node.get("callee") == "std::make_unique" and "FlushGuard" in e.node.get("t", "")] + \
-         [e for e in f.stmts() if e.node.get("k") == "ctor" and e.node.get("cls") == IMPL + "::FlushGuard"]
+    # whatever constructs the guard: a FlushGuard object, make_unique / make_shared / new of one, or emplace into an
+    # optional<FlushGuard> (the owner's own default construction is not the guard)
+    FG = IMPL + "::FlushGuard"
+    mk = [e for e in f.stmts() if e.node.get("k") == "call" and e.node.get("callee") in ("std::make_unique", "std::make_shared") and FG in e.node.get("t", "")] + \
+         [e for e in f.stmts() if e.node.get("k") == "ctor" and e.node.get("cls") == FG] + \
+         [e for e in f.stmts() if e.node.get("k") == "new" and FG in e.node.get("t", "")] + \
+         [e for e in f.stmts() if e.node.get("k") == "mcall" and last(e.node.get("callee", "")) == "emplace" and FG in ((strip_wrappers(e.node.get("obj")) or {}).get("t") or "")]
     finds = [e for e in common.member_calls_on(f, IMPL + "::receiveBuffers", ("find", "at", "operator[]"))]
     r.instance()
     if not mk:
